@@ -9,6 +9,8 @@ tset := {"templates": {name: {"globals": {...}, "body": [stmts]}}, "main": name,
 """
 from __future__ import annotations
 
+from markupsafe import Markup
+
 from .inh_gen import enc_str, dec_str  # noqa: F401
 
 NAMES = {"a": 1, "b": 2, "c": 3, "d": 4, "x": 5, "y": 6, "g": 7, "mg": 8, "tg": 9, "i": 11, "j": 12, "w": 13, "k": 14,
@@ -46,7 +48,12 @@ class Src:
                 out.append("{%% macro %s() %%}%s{%% endmacro %%}" % (s[1], s[2]))
             elif k == "i":
                 _, ts, is_list, wc, ign = s
-                e = "[" + ", ".join(target_src(t) for t in ts) + "]" if is_list else target_src(ts[0])
+                if is_list == "var":
+                    e = "lst_" + "_".join(t[0] + t[1] for t in ts) if ts else "lst_empty"
+                elif is_list == "tuple":
+                    e = "(" + ", ".join(target_src(t) for t in ts) + ("," if len(ts) == 1 else "") + ")"
+                else:
+                    e = "[" + ", ".join(target_src(t) for t in ts) + "]" if is_list else target_src(ts[0])
                 out.append("{%% include %s%s%s %%}" % (e, " ignore missing" if ign else "",
                                                       "" if wc is None else (" with context" if wc else " without context")))
             elif k == "I":
@@ -58,6 +65,8 @@ class Src:
                 out.append("{%% from %s import %s%s %%}" % (
                     target_src(t), ", ".join(n if n == a else f"{n} as {a}" for n, a in names),
                     "" if wc is None else (" with context" if wc else " without context")))
+            elif k == "X":
+                pass        # printed first by sources()
             elif k == "S":
                 _, kind, v, vals, body = s
                 if kind == "f":
@@ -86,7 +95,7 @@ class Src:
 def sources(ts):
     res = {}
     for n, t in ts["templates"].items():
-        out = []
+        out = ["{%% extends %s %%}" % target_src(s[1]) for s in t["body"] if s[0] == "X"]
         Src().stmts(t["body"], out)
         res[n] = "".join(out)
     return res
@@ -130,6 +139,9 @@ def enc_stmts(ss, out):
             for n, a in s[2]:
                 out += [str(NAMES[n]), str(NAMES[a])]
             out.append("1" if flag(s[3], False) else "0")
+        elif k == "X":
+            out.append("X")
+            enc_target(s[1], out)
         elif k == "S":
             _, kind, v, vals, body = s
             out += ["S", kind, str(NAMES[v]), str(len(vals))] + [enc_str(x) for x in vals]
@@ -154,8 +166,16 @@ def model_line(ts, mode="r", fuel=400, main=None):
 
 
 # ---------------------------------------------------------------- the real engine
-def make_env(jinja2, ts, srcs=None, loader=None):
-    env = jinja2.Environment(loader=loader or jinja2.DictLoader(srcs if srcs is not None else sources(ts)))
+ENV_KINDS = ["plain", "async", "autoescape", "sandbox", "async+autoescape"]
+
+
+def make_env(jinja2, ts, srcs=None, loader=None, kind="plain"):
+    loader = loader or jinja2.DictLoader(srcs if srcs is not None else sources(ts))
+    if kind == "sandbox":
+        from jinja2.sandbox import SandboxedEnvironment
+        env = SandboxedEnvironment(loader=loader)
+    else:
+        env = jinja2.Environment(loader=loader, enable_async="async" in kind, autoescape="autoescape" in kind)
     env.globals.update(ts["env_globals"])
     return env
 
@@ -180,13 +200,23 @@ def preload(env, ts):
             env.get_template(n, globals=dict(t["globals"]))
 
 
-def real_render(jinja2, ts, env=None):
+def real_render(jinja2, ts, env=None, history=False):
     try:
         env = env or make_env(jinja2, ts)
         preload(env, ts)
         data = dict(ts["data"])
         for n in ts.get("objects", []):
             data["tobj_" + n] = env.get_template(n)
+        for var, targets in ts.get("lists", {}).items():
+            data[var] = [env.get_template(t[1]) if t[0] == "o" else t[1] for t in targets]
+        if history:
+            # an earlier render of the same environment (cached templates, cached default modules) with other data
+            try:
+                d0 = {k: (v if k.startswith(("tobj_", "lst_")) else "OLD" + str(k)) for k, v in data.items()}
+                d0.update({k: "OLD" + k for k in ("a", "b", "c", "d", "x", "y", "i", "mg")})
+                env.get_template(ts["main"]).render(d0)
+            except Exception:  # noqa
+                pass
         return "O " + enc_str(env.get_template(ts["main"]).render(data))
     except BaseException as e:  # noqa
         if isinstance(e, (KeyboardInterrupt, SystemExit)):
@@ -236,7 +266,7 @@ class IGen:
         if allow_missing and k < 0.12:
             return ("n", r.choice(["nope", "nope2"]))
         fwd, back = tnames
-        n = r.choice(back) if (not fwd or r.random() < 0.03) else r.choice(fwd)
+        n = r.choice(back) if (not fwd or r.random() < 0.008) else r.choice(fwd)
         if is_main and k > 0.88:
             self.objects.add(n)
             return ("o", n)
@@ -257,7 +287,7 @@ class IGen:
         stmts = []
         leaf = not tnames[0]
         for k in plan:
-            if leaf and 0.24 <= k < 0.72 and r.random() > 0.06:
+            if leaf and 0.24 <= k < 0.72 and r.random() > 0.015:
                 k = 0.9 if r.random() < 0.6 else 0.1
             if k < 0.16:
                 x = r.choice(PUBLIC_VARS + ["m1", "q1"] + (["_p"] if top else []))
@@ -269,8 +299,16 @@ class IGen:
                 stmts.append(["m", m, self.word()])
                 will.add(m)
             elif k < 0.50:
-                is_list = r.random() < 0.3
+                is_list = r.random() < 0.35
                 ts_ = [self.target(tnames, is_main) for _ in range(r.randint(0, 3) if is_list else 1)]
+                if is_list:
+                    k2 = r.random()
+                    if k2 < 0.2:
+                        is_list = "tuple"
+                    elif k2 < 0.45 and is_main and top:
+                        # the list travels in a render variable (get_or_select_template)
+                        is_list = "var"
+                        self.lists["lst_" + "_".join(t[0] + t[1] for t in ts_) if ts_ else "lst_empty"] = ts_
                 wc = r.choice([None, None, True, False, False])
                 stmts.append(["i", ts_, is_list, wc, r.random() < 0.3])
             elif k < 0.62:
@@ -345,6 +383,7 @@ class IGen:
     def tset(self):
         r = self.r
         self.objects = set()
+        self.lists = {}
         nt = r.randint(2, 4)
         tnames = ["main", "t1", "t2", "t3"][:nt]
         templates = {}
@@ -358,10 +397,16 @@ class IGen:
             later = [m for m in tnames if m > n and m != "main"]
             others = [m for m in tnames if m != "main"]
             pool = (later, others)
-            templates[n] = {"globals": g, "body": self.body(n, pool, True, 0, set(), set())}
+            if later and r.random() < 0.2:
+                # a template that extends: its own top level only assigns, defines macros and imports; the parent's
+                # root then runs with the same context (modelled as the last statement)
+                body = [s for s in self.body(n, pool, True, 0, set(), set()) if s[0] in ("s", "m", "I", "F")]
+                templates[n] = {"globals": g, "body": body + [("X", ("n", r.choice(later)))]}
+            else:
+                templates[n] = {"globals": g, "body": self.body(n, pool, True, 0, set(), set())}
         data = {}
         if r.random() < 0.8:
-            data["x"] = "DX"
+            data["x"] = r.choice(["DX", "DX", Markup("DX")])      # a str subclass is still a string
         if r.random() < 0.4:
             data["y"] = "DY"
         for nm, pr in (("a", 0.35), ("b", 0.3), ("c", 0.25), ("d", 0.2), ("q1", 0.15)):
@@ -374,7 +419,7 @@ class IGen:
         if r.random() < 0.2:
             data["i"] = "DI"
         return {"templates": templates, "main": "main", "data": data, "env_globals": {"g": "G"},
-                "objects": sorted(self.objects)}
+                "objects": sorted(self.objects), "lists": dict(self.lists)}
 
 
 def directed_sets():
@@ -434,6 +479,27 @@ def directed_sets():
                     ("S", "B", "k", ["1"], [("p", "i"), ("p", "w"), ("p", "k")]), ("p", "i"), ("p", "w")]
             out.append({"templates": {"main": {"globals": {}, "body": body}, "t1": seen_t},
                         "main": "main", "data": {"x": "DX"}, "env_globals": {"g": "G"}, "objects": []})
+    # name lists in which nothing exists, with and without ignore missing, in every list spelling
+    for lst in ([("n", "nope")], [("n", "nope"), ("n", "nope2")], []):
+        for spelling in (True, "tuple"):
+            for ign in (True, False):
+                for wc in (None, False):
+                    body = [("o", "a"), ("i", lst, spelling, wc, ign), ("o", "b"), ("i", [("n", "t1")], False, None, False)]
+                    out.append({"templates": {"main": {"globals": {}, "body": body},
+                                              "t1": {"globals": {}, "body": [("o", "one")]}},
+                                "main": "main", "data": {}, "env_globals": {"g": "G"}, "objects": []})
+    # templates that extend, imported / included / rendered: exports and output of child + parent
+    par = {"globals": {}, "body": [("o", "P<"), ("p", "a"), ("p", "b"), ("o", ">"), ("s", "b", ("c", "pb")), ("m", "f2", "pf")]}
+    chi = {"globals": {}, "body": [("s", "a", ("c", "ca")), ("m", "f1", "cf"), ("s", "_p", ("c", "priv")),
+                                   ("I", ("n", "t3"), "m2", None), ("X", ("n", "t2"))]}
+    for use in ([("I", ("n", "t1"), "m1", None), ("a", "m1", "a"), ("a", "m1", "b"), ("a", "m1", "f1"), ("a", "m1", "f2"),
+                 ("a", "m1", "_p"), ("a", "m1", "m2")],
+                [("F", ("n", "t1"), [("a", "q1"), ("f2", "q2")], None), ("p", "q1"), ("p", "q2")],
+                [("i", [("n", "t1")], False, None, False)], [("i", [("n", "t1")], False, False, False)],
+                [("I", ("n", "t1"), "m1", True), ("a", "m1", "b")]):
+        out.append({"templates": {"main": {"globals": {}, "body": use}, "t1": chi, "t2": par,
+                                  "t3": {"globals": {}, "body": [("s", "d", ("c", "3"))]}},
+                    "main": "main", "data": {"a": "DA"}, "env_globals": {"g": "G"}, "objects": []})
     # include lists / partially cached candidates: t2 is loaded first (by an include or an import), then a
     # list [t1, t2] / [nope, t1, t2] must still select t1
     for first in ([("i", [("n", "t2")], False, None, False)], [("I", ("n", "t2"), "m2", None)],
